@@ -366,6 +366,40 @@ def _file_metamodel():
         shutil.rmtree(d, ignore_errors=True)
 
 
+KNOWN_TRANSITIVE = 'C29-classes-of-transitively-imported-grammars-missing'
+
+
+def transitive_import_export():
+    """a.tx imports b.tx imports c.tx: the meta-model export declares the classes of all three files.
+    Returns (missing per renderer, expected classes); the classifier of the known finding: the missing classes
+    are exactly those of grammar files the main file does not import directly"""
+    import os
+    import shutil
+    import tempfile
+    from textx import metamodel_from_file
+    from textx.export import metamodel_export_tofile, PlantUmlRenderer
+    files = {'a.tx': "import b\nA: 'a' bs+=B;", 'b.tx': "import c\nB: 'b' cs+=C;", 'c.tx': "C: 'c' name=ID d=D?;\nD: 'd' v=INT;"}
+    d = tempfile.mkdtemp(prefix='c29t_')
+    try:
+        for fn, text in files.items():
+            with open(os.path.join(d, fn), 'w') as f:
+                f.write(text)
+        mm = metamodel_from_file(os.path.join(d, 'a.tx'))
+    finally:
+        shutil.rmtree(d, ignore_errors=True)
+    expected = {'A': 'direct', 'B': 'direct', 'C': 'transitive', 'D': 'transitive'}
+    missing = {}
+    buf = io.StringIO()
+    metamodel_export_tofile(mm, buf)
+    nodes, edges = parse_dot(buf.getvalue())
+    labels = [a['label'][1] for a in nodes.values() if 'label' in a]
+    missing['dot'] = sorted(nm for nm in expected if not any(re.search(r'(^|[{*])%s\|' % nm, lab) for lab in labels))
+    buf = io.StringIO()
+    metamodel_export_tofile(mm, buf, renderer=PlantUmlRenderer())
+    missing['plantuml'] = sorted(nm for nm in expected if not re.search(r'class\s+(\w+\.)*%s(?![\w.])' % nm, buf.getvalue()))
+    return missing, expected
+
+
 def metamodel_checks():
     from textx import metamodel_from_str
     from textx.export import metamodel_export_tofile, PlantUmlRenderer
@@ -466,6 +500,17 @@ def main():
     checked += n
     for b in bad[:4]:
         chk.violation('%s export of %r: %s' % (b['kind'], b['grammar'][:50], b['detail']), b)
+    missing, expected = transitive_import_export()
+    checked += 2
+    for kind, names in missing.items():
+        if not names:
+            continue
+        what = ('%s export of a grammar in three files (a.tx imports b.tx imports c.tx): no declaration of the '
+                'class(es) %s' % (kind, names))
+        if chk.is_known(KNOWN_TRANSITIVE) and all(expected[nm] == 'transitive' for nm in names):
+            chk.known_hit(KNOWN_TRANSITIVE, what)
+        else:
+            chk.violation(what, {'transitive_import_export': True})
     for pr in repository_models_scenario()[:2]:
         chk.violation(pr, {'repository_models': True})
     for pr in file_overwrite_scenario()[:2]:
@@ -586,5 +631,8 @@ def replay(data):
     if 'slot' in data:
         r = judge_model(data['slot'], data['value'])
         return bool(r), r
+    if data.get('transitive_import_export'):
+        missing, expected = transitive_import_export()
+        return any(missing.values()), missing
     n, bad = metamodel_checks()
     return bool(bad), bad[:2]
